@@ -5,6 +5,7 @@ use ascent::Dual;
 use crate::gens;
 use crate::prog::ProgramDef;
 use crate::defprog;
+use crate::defprog_ser;
 
 // ---- 1. eqrel filled in a non-recursive stratum, read with every bound/free pattern ----------
 defprog! {
@@ -272,8 +273,109 @@ defprog! {
    }
 }
 
+// ---- serial-only BYODS providers (no parallel implementation, hence no schedule): they take
+//      part in the history (C13) and deadline (C14) checks. Reference = the same program run fresh
+//      / uninterrupted (what C13 and C14 state); whether a provider computes the right closure in
+//      the first place is C10/C11/C12 and deliberately not judged here ----------------------------
+defprog_ser! {
+   name: trrel_bin;
+   positive: true;
+   tags: ["c13", "c14", "byods-ser"];
+   reference: None;
+   rels: {
+      relation edge(u32, u32) [input];
+      relation start(u32) [input];
+      relation #[ds(ascent_byods_rels::trrel)] tr(u32, u32) [noio];
+      relation out(u32, u32) [];
+      relation from_start(u32) [];
+      relation into(u32, u32) [];
+   }
+   gens: [("random", gens::random), ("small", gens::small), ("chain", gens::chain)];
+   rules: {
+      tr(x, y) <-- edge(x, y);
+      out(x, y) <-- tr(x, y);
+      from_start(y) <-- start(x), tr(x, y);
+      into(x, y) <-- start(y), tr(x, y);
+      tr(x, y) <-- from_start(x), start(y), if x != y;
+   }
+}
+
+defprog_ser! {
+   name: trrel_tern;
+   positive: true;
+   tags: ["c13", "c14", "byods-ser"];
+   reference: None;
+   rels: {
+      relation edge(u32, u32, u32) [input];
+      relation pick(u32, u32) [input];
+      relation #[ds(ascent_byods_rels::trrel)] tr(u32, u32, u32) [noio];
+      relation out(u32, u32, u32) [];
+      relation picked(u32, u32, u32) [];
+   }
+   gens: [("random", gens::random), ("small", gens::small)];
+   rules: {
+      tr(g, x, y) <-- edge(g, x, y);
+      out(g, x, y) <-- tr(g, x, y);
+      picked(g, x, y) <-- pick(g, x), tr(g, x, y);
+      tr(g, y, x) <-- picked(g, x, y), pick(g, y);
+   }
+}
+
+defprog_ser! {
+   name: trrel_uf_bin;
+   positive: true;
+   tags: ["c13", "c14", "byods-ser"];
+   reference: None;
+   rels: {
+      relation edge(u32, u32) [input];
+      relation start(u32) [input];
+      relation #[ds(ascent_byods_rels::trrel_uf)] tr(u32, u32) [noio];
+      relation out(u32, u32) [];
+      relation from_start(u32) [];
+      relation into(u32, u32) [];
+   }
+   gens: [("random", gens::random), ("small", gens::small), ("chain", gens::chain)];
+   rules: {
+      tr(x, y) <-- edge(x, y);
+      out(x, y) <-- tr(x, y);
+      from_start(y) <-- start(x), tr(x, y);
+      into(x, y) <-- start(y), tr(x, y);
+      tr(x, y) <-- from_start(x), start(y), if x != y;
+   }
+}
+
+// the serial binary eqrel provider in histories and under deadlines
+defprog_ser! {
+   name: eq_ser_history;
+   positive: true;
+   tags: ["c13", "c14", "byods-ser"];
+   reference: None;
+   rels: {
+      relation pair(u32, u32) [input];
+      relation f(u32, u32) [input];
+      relation node(u32) [input];
+      relation #[ds(ascent_byods_rels::eqrel)] eq(u32, u32) [noio];
+      relation eq_out(u32, u32) [];
+      relation rep(u32, u32) [];
+      relation merged_late(u32, u32) [];
+   }
+   gens: [("eq_merge", gens::eq_merge), ("random", gens::random)];
+   rules: {
+      eq(x, y) <-- pair(x, y);
+      eq(c, d) <-- eq(a, b), f(a, c), f(b, d);
+      eq(c, d) <-- f(a, c), f(b, d), eq(a, b2), node(c), if b == b2;
+      merged_late(x, y) <-- node(x), eq(x, y), f(y, _), if x < y;
+      eq_out(x, y) <-- eq(x, y);
+      rep(x, y) <-- node(x), eq(x, y), if y <= x;
+   }
+}
+
 pub fn all() -> Vec<ProgramDef> {
    vec![
+      trrel_bin::def(),
+      trrel_tern::def(),
+      trrel_uf_bin::def(),
+      eq_ser_history::def(),
       eq_congruence::def(),
       eq_congruence_ref::def(),
       eq_access::def(),
